@@ -73,4 +73,12 @@ CHECKS["C12"] = dict(level="fault_enumeration",
    technique="fault enumeration derived from the structure of the TLA+ decoder TZif!Decode (every count, version/magic byte, index, offset, 8-byte time edge, section-boundary truncation, footer sentence, full type table) + byte-level mutations; each mutated file loaded and queried under ASan(+container annotations)/UBSan-trap with a per-file alarm; TLC (ZoneTrace) decodes the same bytes and decides load class, ub=0 on every call and spec-equality when WellFormed; determinism by twin load and by identical logs under 4 stack/heap pre-fill patterns",
    text="What TLA+ decides: what each byte sequence means (must load / must fail / unconstrained, and the answers of a loaded WellFormed zone) and which fault classes exist. What it cannot decide - out-of-bounds access, uninitialised reads, UB inside the C++ - is observed: sanitizers on every execution, differing outcomes across memory pre-fills, an alarm for termination.",
    note="Trusted base: ASan/UBSan-trap/_GLIBCXX_SANITIZE_VECTOR and the pre-fill comparison as observers (they see only executed inputs); TLC + TZif/Zone; mutgen.py. Files whose header declares more than 64 MiB of data are excluded (the property presumes enough memory).")
+_FT = ("TLA+ spec Format (scanner into internal specifiers and delegated stretches; rendering of every internal specifier from the lookup fields; strftime as an "
+       "uninterpreted environment function) + TLC-exported stretch lists (GenFormat) so that the harness records libc's answer exactly where the specification delegates + TLC trace validation (FormatTrace)")
+CHECKS["C08"] = dict(level="model_checking", technique=_FT + " of format() output under ASan+UBSan-trap",
+   text="For ~3k (quick) / ~100k (thorough) format strings - repository literals, every internal/delegated/dangling token, token pairs around each scanner cut point, random token and byte sequences - x 15 zones x 34 instants x femtosecond classes, TLC recomputes the text from the lookup() fields of the same call and the recorded strftime graph and compares it with format()'s output; every call must be free of sanitizer findings.",
+   note=_TB + "strftime itself is environment (C locale); formats containing NUL and delegated renderings that may exceed format()'s 16x buffer are left open; memory-safety clause = observation by ASan/UBSan on executed inputs.")
+CHECKS["C07"] = dict(level="model_checking", technique=_FT + "; round-trip events format -> parse in a different zone for formats of the lossless family (membership re-checked by the TLA+ predicate Lossless)",
+   text="Formats of the lossless family (year, date via month/day or week+weekday or locale names, H, M, full-precision seconds, full-resolution offset, or %s) in random order/separators x zones (incl. sub-minute and +-24h fixed offsets) x instants (years 0, 1, 9999/10000, int64 limits) x femtosecond classes: parse(fmt, format(fmt, t, tz), other_zone) must return exactly t (and the femtoseconds).",
+   note=_TB + "two known findings are listed in known_findings.txt (offset of exactly +-24h; %e with single-digit days).")
 NOT_APPLICABLE = {}
